@@ -136,7 +136,12 @@ CORE = (
 )
 # body positions that are also driven through a real ClientSession (the payload code is the same as
 # on the server side; these cover ClientRequest's copying of payload headers and its own framing)
-CLI_BODIES = ("mp_hval", "mp_hname", "mp_boundary", "mp_nosize_hval", "fd_name_q", "fd_filename_q", "fd_value")
+CLI_BODIES = ("mp_hval", "mp_hname", "mp_boundary", "mp_nosize_hval", "fd_name_q", "fd_filename_q", "fd_value",
+              "fd_fobj_nq_nosize")
+# positions added later (file-like values naming themselves; FormData behind an unsized field): registered after
+# all the others, sampled separately by the seeded part so that older scenarios keep their shape
+LATER = ("srv_fd_fobj_q", "srv_fd_fobj_nq", "srv_fd_fobj_nq_nosize", "cli_fd_fobj_nq_nosize", "srv_fd_name_nq_nosize",
+         "srv_fd_filename_nq_nosize", "srv_fd_ctype_nosize")
 
 
 def _reg(p: Pos):
@@ -283,10 +288,24 @@ def _build_positions():
         m.append(b"hello", headers={"X-Part": s})
         return m
 
-    def fd(field, quote=True):
+    class _NamedIO(io.BytesIO):
+        """a file-like object (io.IOBase) whose .name is an application-supplied string: FormData takes the
+        part's filename from it when add_field() is not given one (helpers.guess_filename)"""
+
+        def __init__(self, data, name):
+            super().__init__(data)
+            self.name = name
+
+    def fd(field, quote=True, nosize=False):
         def mk(s):
             f = FormData(quote_fields=quote, boundary=B)
-            if field == "name":
+            if nosize:
+                # a field of unknown size first: the form's size is None, nothing serialises the later
+                # parts' headers before the message head goes out - add_field() is the only check in time
+                f.add_field("s", _agen())
+            if field == "fobj":
+                f.add_field("f", _NamedIO(b"hello", s))
+            elif field == "name":
                 f.add_field(s, b"hello")
             elif field == "filename":
                 f.add_field("f", b"hello", filename=s)
@@ -314,6 +333,20 @@ def _build_positions():
                                body=dict(boundary=fixed_b, part_targets=["content-disposition", "content-type"], params=True)),
         "fd_ctype": dict(make=fd("ctype"), base="text/xab", body=dict(boundary=fixed_b, part_targets=["content-type"], exact=True)),
         "fd_value": dict(make=fd("value"), body=dict(boundary=fixed_b, content_varies=True)),
+        # filename guessed from the name of a file-like value (no filename= argument)
+        "fd_fobj_q": dict(make=fd("fobj"), base="xab.txt",
+                          body=dict(boundary=fixed_b, part_targets=["content-disposition", "content-type"], params=True)),
+        "fd_fobj_nq": dict(make=fd("fobj", False), base="xab.txt",
+                           body=dict(boundary=fixed_b, part_targets=["content-disposition", "content-type"], params=True)),
+        # the FormData positions behind a field of unknown size (async iterator): the form cannot be sized
+        "fd_fobj_nq_nosize": dict(make=fd("fobj", False, True), base="xab.txt",
+                                  body=dict(boundary=fixed_b, part_targets=["content-disposition", "content-type"], params=True)),
+        "fd_name_nq_nosize": dict(make=fd("name", False, True),
+                                  body=dict(boundary=fixed_b, part_targets=["content-disposition"], params=True)),
+        "fd_filename_nq_nosize": dict(make=fd("filename", False, True), base="xab.txt",
+                                      body=dict(boundary=fixed_b, part_targets=["content-disposition", "content-type"], params=True)),
+        "fd_ctype_nosize": dict(make=fd("ctype", True, True), base="text/xab",
+                                body=dict(boundary=fixed_b, part_targets=["content-type"], exact=True)),
     }
     for nm, d in bodies.items():
         mk = d.pop("make")
